@@ -38,6 +38,9 @@ type rewriter struct {
 	tmp      int
 	mapOrder bool
 	quiet    bool
+	race     bool
+	raceFile string
+	captured map[types.Object]bool
 
 	commRecv  map[*ast.UnaryExpr]bool // receive that is the comm of a select clause
 	recv2     map[*ast.UnaryExpr]bool // receive in value,ok context
@@ -141,6 +144,9 @@ func unparen(e ast.Expr) ast.Expr {
 }
 
 func (rw *rewriter) rewriteFile(f *ast.File) {
+	if rw.race {
+		rw.raceInstrument(f, rw.raceFile)
+	}
 	rw.prepass(f)
 	astutil.Apply(f, nil, rw.post)
 }
